@@ -10,6 +10,12 @@ package accesslist
 //@   ensures !wInternal(old(ch.Writer)) && !containsIP(old(a.allowed), wRemoteIP(old(ch.Writer))) ==> calls("(*middleware.Chain).Cancel") == 1 && calls("(*middleware.Chain).Next") == 0
 //@   ensures !wInternal(old(ch.Writer)) && containsIP(old(a.allowed), wRemoteIP(old(ch.Writer))) ==> calls("(*middleware.Chain).Next") == 1 && calls("(*middleware.Chain).Cancel") == 0
 //@   ensures calls("(middleware.ResponseWriter).WriteMsg") == 0 && calls("(middleware.ResponseWriter).Write") == 0 && calls("(*middleware.Chain).CancelWithRcode") == 0
+//@ # the admission test offered to the server is the SAME containment test ServeDNS applies
+//@ func (*List).AdmitsSource
+//@   abstract
+//@   nosafety all pre
+//@   assert at return: result == lastret("(*internal/ipset.Set).ContainsIP")
+//@   assert at call (*internal/ipset.Set).ContainsIP#1: arg0 == a.allowed && arg1 == ip
 //@ func (*List).ClientOnly
 //@   modifies nothing
 //@   ensures result
